@@ -2,7 +2,7 @@
    Only statements here; the model is Model/Keys.v, the proofs are in Proofs/Keys*.v.
    A key is the list of its dot-separated components. *)
 From Coq Require Import ZArith List Bool String.
-From PyxelV Require Import Model.Keys Model.KeysWorld Proofs.Keys Proofs.KeysLit Proofs.KeysWorld.
+From PyxelV Require Import Model.Keys Model.KeysWorld Proofs.Keys Proofs.KeysLit Proofs.KeysSeq Proofs.KeysWorld.
 From PyxelGen Require Import Gen_C08.
 Import ListNotations.
 Open Scope string_scope.
@@ -169,14 +169,15 @@ Theorem C08_guard_respected :
     find is_prop att ms = Some (KProp true g, c) -> set (Node k ms) [att] v = Ok t' -> guard_check g v = None.
 Proof. intros k ms att g c v t' Hk Hf Hs. eapply assign_respects_guard; eauto. Qed.
 Print Assumptions C08_guard_respected.
-
+(* (stated on a local table: the values of the regenerated table belong to the source, not to this file) *)
 Example C08_guards_nonvacuous :
-  guard_of src_setter_guards "Environment" "temperature" = GRange 0 1000 true false /\
-  guard_check (guard_of src_setter_guards "Environment" "temperature") (VInt 0) = Some ValueError /\
-  guard_check (guard_of src_setter_guards "Environment" "temperature") (VDec 5 (-1)) = None /\
-  guard_check (guard_of src_setter_guards "Geometry" "row") (VStr "x") = Some TypeError /\
-  guard_of src_setter_guards "Geometry" "nope" = GAny /\ List.length src_setter_guards = 21%nat.
-Proof. repeat split; vm_compute; reflexivity. Qed.
+  let tbl := [("Environment", "temperature", GRange 0 1000 true false); ("Geometry", "row", GAbove 0 true)] in
+  guard_check (guard_of tbl "Environment" "temperature") (VInt 0) = Some ValueError /\
+  guard_check (guard_of tbl "Environment" "temperature") (VDec 5 (-1)) = None /\
+  guard_check (guard_of tbl "Environment" "temperature") (VInt 1000) = None /\
+  guard_check (guard_of tbl "Geometry" "row") (VStr "x") = Some TypeError /\
+  guard_of tbl "Geometry" "nope" = GAny /\ src_setter_guards <> [].
+Proof. repeat split; try (vm_compute; reflexivity). vm_compute. discriminate. Qed.
 
 (* ===================================================================================== validate_steps *)
 
@@ -246,10 +247,22 @@ Theorem C08_literal_roundtrip :
 Proof. exact literal_roundtrip. Qed.
 Print Assumptions C08_literal_roundtrip.
 
+(* ... and so is every literal text WITH sequences: quoted strings, lists and tuples — nested to any depth — of
+   integers, decimals, booleans, None and quoted strings, written the way Python prints them ("[1, 'a', (2, True)]",
+   "(1,)", "[]"); inside a sequence a word must be quoted (a bare word there makes the whole text a string) *)
+Theorem C08_literal_roundtrip_sequences :
+  forall v, lval_wf false v = true -> eval_entry (render_lval v) = Ok (lval_val v).
+Proof. exact literal_roundtrip_seq. Qed.
+Print Assumptions C08_literal_roundtrip_sequences.
+
 Example C08_literal_nonvacuous :
   lit_wf (LWord "foo") = true /\ lit_wf (LInt (-12)) = true /\ lit_wf (LDec (-25) (-2)) = true /\ lit_wf LNone = true /\
   render_lit (LDec (-25) (-2)) = "-25e-2" /\ render_lit (LInt 1200) = "1200" /\
-  map eval_entry ["1e3"; "007"; "-12"; "[1, 'a', (2.5, True)]"; "foo"; "'foo'"; "1.50"; "None"] =
+  (let v := LL [LS (LInt 1); LQ (list_ascii_of_string "a b"); LT [LS (LDec 25 (-1)); LS (LBool true)]; LT [LS LNone]; LL []] in
+   lval_wf false v = true /\ render_lval v = "[1, 'a b', (25e-1, True), (None,), []]" /\
+   lval_val v = VList [VInt 1; VStr "a b"; VTuple [VDec 25 (-1); VBool true]; VTuple [VNone]; VList []]) /\
+  lval_wf false (LL [LS (LWord "abc")]) = false /\
+  map eval_entry ["1e3"; "007"; "-12"; "[1, 'a', (2.5, True)]"; "foo"; "'foo'"; "1.50"; "None"; "[1, abc]"] =
   [Ok (VDec 1 3); Ok (VStr "007"); Ok (VInt (-12)); Ok (VList [VInt 1; VStr "a"; VTuple [VDec 25 (-1); VBool true]]);
-   Ok (VStr "foo"); Ok (VStr "foo"); Ok (VDec 150 (-2)); Ok VNone].
+   Ok (VStr "foo"); Ok (VStr "foo"); Ok (VDec 150 (-2)); Ok VNone; Ok (VStr "[1, abc]")].
 Proof. repeat split; vm_compute; reflexivity. Qed.
